@@ -153,7 +153,7 @@ func (c *Content) WithFileInfoDefaults(umask fs.FileMode, mtime time.Time) *Cont
 				cc.FileInfo.MTime = info.ModTime()
 			}
 			if cc.FileInfo.Mode == 0 {
-				cc.FileInfo.Mode = info.Mode() &^ umask
+				cc.FileInfo.Mode = unixSpecialBits(info.Mode()) &^ umask
 			}
 			cc.FileInfo.Size = info.Size()
 		}
@@ -163,6 +163,25 @@ func (c *Content) WithFileInfoDefaults(umask fs.FileMode, mtime time.Time) *Cont
 		cc.FileInfo.MTime = mtime
 	}
 	return cc
+}
+
+// unixSpecialBits moves the setuid, setgid and sticky flags of a mode read
+// from the build host from Go's fs.ModeSetuid, fs.ModeSetgid and fs.ModeSticky
+// to the octal positions (0o4000, 0o2000, 0o1000) in which explicitly
+// configured modes carry them and in which every packager writes them to its
+// archive. File type bits are left untouched.
+func unixSpecialBits(mode fs.FileMode) fs.FileMode {
+	out := mode &^ (fs.ModeSetuid | fs.ModeSetgid | fs.ModeSticky)
+	if mode&fs.ModeSetuid != 0 {
+		out |= 0o4000
+	}
+	if mode&fs.ModeSetgid != 0 {
+		out |= 0o2000
+	}
+	if mode&fs.ModeSticky != 0 {
+		out |= 0o1000
+	}
+	return out
 }
 
 // Name to part of the os.FileInfo interface
@@ -498,7 +517,7 @@ func addTree(
 			c.Destination = NormalizeAbsoluteDirPath(destination)
 			// only the permission bits: the entry type already says it is a
 			// directory and packagers write Mode verbatim into their archives
-			c.FileInfo.Mode = info.Mode() &^ fs.ModeDir &^ umask
+			c.FileInfo.Mode = unixSpecialBits(info.Mode()&^fs.ModeDir) &^ umask
 			c.FileInfo.MTime = info.ModTime()
 			if ownedByFilesystem(c.Destination) {
 				c.Type = TypeImplicitDir
